@@ -548,11 +548,21 @@ def replay(ob):
     fam.append(("C2 at 1.9 A (bonded only through the radii correction)", c2, 0))
     c2p = Atoms("C2", positions=[[0.5, 4, 4], [9.0, 4, 4]], cell=[10.4, 10, 10], pbc=True)  # bonded across the boundary: 1.9 A
     fam.append(("C2 bonded across the cell boundary", c2p, 0))
-    for name, at, want in fam:
+    # thresholds other than the default (the expected values follow from the distances written next to each case)
+    from ase.build import graphene as _gr
+    st = _gr(size=(3, 3, 1), vacuum=None)
+    cst = np.array(st.get_cell()); cst[2] = [0, 0, 6.0]; st.set_cell(cst); st.set_pbc(True)
+    fam.append(("graphene sheets 6.0 A apart, threshold 5.0 (6.0 - 2*0.76 = 4.48 <= 5.0: bonded across the sheets)", st, 3, 5.0))
+    fam.append(("graphene sheets 6.0 A apart, threshold 1.0 (sheets not bonded: two components)", st.repeat((1, 1, 2)), None, 1.0))
+    fam.append(("Cs-H bonded, second H 3.0 A away, threshold 1.0 (3.0 - 2*0.31 = 2.38 > 1.0: two components)",
+                Atoms("CsH2", positions=[[2, 5, 5], [4.5, 5, 5], [7.5, 5, 5]], cell=[[20, 0, 0], [2, 19, 0], [1, 3, 21]], pbc=True), None, 1.0))
+    for ent in fam:
+        name, at, want = ent[:3]
+        kw = {"cluster_threshold": ent[3]} if len(ent) > 3 else {}
         p0 = at.get_positions().copy()
         try:
-            got = g.get_dimensionality(at)
-            got2, cl = g.get_dimensionality(at, return_clusters=True)
+            got = g.get_dimensionality(at, **kw)
+            got2, cl = g.get_dimensionality(at, return_clusters=True, **kw)
         except Exception as e:  # noqa
             fails.append({"structure": name, "observed": "%s: %s" % (type(e).__name__, e)})
             continue
